@@ -63,6 +63,7 @@ func zzGuestSnap(m *Memory) map[uint32][]byte {
 // unmapped guest pages are never written and the page count never changes.
 //zz:workers=16 paths=200000
 func ZZ_C07_discipline() {
+	zzCallerAssigns = true
 	hc := zzAccumulateCalls[zzvt.Range("hostCall", 0, len(zzAccumulateCalls)-1)]
 	in, regs := zzRichCtxN(2)
 	for k, r := range hc.addrs {
